@@ -25,4 +25,82 @@ TEXT = {
     'C15': dict(level='Theorems that subgraph/reverse/reweight/collapse of the model equal the abstract derived graph; all four '
                 'compared (nodes, edges, traversal lists, source unchanged) for every subset of the universe.',
                 note=_STORE_NOTE, technique='Lean 4 proof + differential correspondence', ref='DESIGN.md 5 C15'),
+    'C04': dict(level='Theorems about the Lean model of dijkstra / dijkstra_basic (invariants of the lazy-deletion priority loop) and a Lean '
+                'checker of a single-source answer, proved sound against the walk-based specification; the checker runs on the real '
+                "implementation's output (every source, target/cutoff/first_only/with_paths combinations, single_source = multi_source = "
+                'all_pairs), and the model is compared with the implementation path for path.',
+                note='Trusted: Lean kernel, hand-written model (sampled correspondence), harness, check.py. Distances are exact because the '
+                     'harness uses integer weights; IEEE rounding, std BinaryHeap and HashMap are not modelled.',
+                technique='Lean 4 proof (checker soundness + loop invariants) + differential correspondence', ref='DESIGN.md 5 C04'),
+    'C05': dict(level='Definition-level specification of betweenness in Lean (enumeration of all shortest paths) evaluated on the '
+                "implementation's output for graphs up to 8 nodes; Brandes stage/accumulation model in exact rationals compared with the "
+                'implementation on all sizes incl. the parallel path; theorems on the scaling rule, shape and accumulation.',
+                note='Trusted as for C04; f64 accumulation is compared with relative tolerance 1e-9.', technique='Lean 4 proof + definition-level '
+                'spec check + differential correspondence', ref='DESIGN.md 5 C05'),
+    'C06': dict(level='Definition-level specification of closeness (incoming distances via Bellman-Ford on the abstract graph) evaluated on the '
+                "implementation's output; model (reverse + level BFS / Dijkstra stage + get_node_centrality) in exact rationals compared "
+                'with the implementation; theorems on get_node_centrality and reversal.',
+                note='Trusted as for C04; f64 quotient compared with relative tolerance 1e-9.', technique='Lean 4 proof + definition-level spec '
+                'check + differential correspondence', ref='DESIGN.md 5 C06'),
+    'C07': dict(level='Theorem: an indexed parallel collect followed by a sequential fold equals the serial computation for every schedule and '
+                'every thread count (C07_parCollect_eq_map, C07_schedule_independent, C07_threads_independent). The shape assumption is '
+                're-checked against the source on every run (translator parallel_sites); bit-for-bit comparison across rayon pools of '
+                '1..16 threads and concurrent readers on graphs above the threshold.',
+                note='Partial by nature: work-stealing interleavings, rayon\'s order-preserving collect and data-race freedom (Rust type system, no '
+                     'unsafe) are runtime / library facts the model cannot exhibit.', technique='Lean 4 proof of schedule independence + '
+                'syntactic translator + thread-pool differential runs', ref='DESIGN.md 5 C07'),
+    'C08': dict(level='Consequences of the C04 checker being exact: every option combination (target x cutoff x first_only x with_paths, all '
+                '16) is checked against the same walk-based specification, so restricted answers are restrictions of the unrestricted one; '
+                'get_all_shortest_paths_involving checked against the specification; model compared path for path.',
+                note='Trusted as for C04.', technique='Lean 4 proof (checker soundness) + differential correspondence', ref='DESIGN.md 5 C08'),
+    'C10': dict(level='Lean checker "is the partition of the nodes by relation R" (proved equivalent to the statement) run on the implementation\'s '
+                'connected / weak / strong components, node component, component count, BFS from every node and equal-size partitions; models '
+                'of all seven functions compared as sets of sets; theorems on the checker, BFS and the equal-size arithmetic.',
+                note='Trusted as for C04. The SCC algorithm is checked through the proved checker on explored graphs, not proved correct for all '
+                     'graphs (stated as C10_scc_full_statement).', technique='Lean 4 proof (checkers) + differential correspondence',
+                ref='DESIGN.md 5 C10'),
+    'C11': dict(level='Definitions of triangles / clustering (undirected, Fagiolo, weighted geometric-mean forms) / transitivity / generalized '
+                'degree / square clustering over the abstract graph; the implementation\'s values (full node set and arbitrary subsets) are '
+                'compared with them; model of every cluster function compared; theorems on counts and the unit interval.',
+                note='Trusted as for C04; weighted coefficients are evaluated over Float (cbrt) with tolerance 1e-9. Directed square clustering is '
+                     'not specified (iteration-order dependent) and only checked for panics (C20).',
+                technique='Lean 4 proof + definition-level spec check + differential correspondence', ref='DESIGN.md 5 C11'),
+    'C12': dict(level='Theorem: is_partition model = "pairwise disjoint, only graph nodes, covering"; Newman\'s formula over the abstract graph in '
+                'exact rationals compared with the implementation for true partitions, NotAPartition demanded for everything else.',
+                note='Trusted as for C04; value compared with tolerance 1e-9.', technique='Lean 4 proof + spec comparison + differential '
+                'correspondence', ref='DESIGN.md 5 C12'),
+    'C13': dict(level='Lean checker on every Louvain output: non-empty list of levels, each a partition into non-empty communities, each level '
+                'coarsens the previous, exact (rational) modularity on the input graph non-decreasing and first level >= singletons, '
+                'louvain_communities = last level; termination observed under a watchdog; theorems on the gain formula (gain = m*deltaQ).',
+                note='Partial: Louvain itself is not modelled step by step (randomised visiting order inside the crate); the algebraic core is a '
+                     'theorem, the rest is the proved checker on explored inputs. f64 rounding inside Louvain is not modelled.',
+                technique='Lean 4 proof (gain identity, checker) + spec check on implementation output', ref='DESIGN.md 5 C13'),
+    'C14': dict(level='Event-level model of the GraphML writer and reader; theorem: readEvents (writeEvents g) rebuilds g; the real document is '
+                'tokenised with the same quick-xml and compared with the model writer, the real read-back graph with the original '
+                '(names over hostile alphabets, weights by bit pattern).',
+                note='quick-xml tokenizer/writer/escaping and f64 Display/parse are library code (assumed, exercised, not modelled).',
+                technique='Lean 4 proof (event-level round trip) + differential correspondence', ref='DESIGN.md 5 C14'),
+    'C16': dict(level='complete_graph model theorem; karate table regenerated from the source and decided by the kernel; G(n,p) model over the '
+                'skip sequence with structure theorems; structure checker on every generated graph, statistical mean-edge-count test.',
+                note='Partial: the distribution claim rests on textbook probability + the statistical test; ChaCha20 and ln are library code.',
+                technique='Lean 4 proof + translator (karate) + differential correspondence + statistical test', ref='DESIGN.md 5 C16'),
+    'C17': dict(level='Repeated calls in one process, inside rayon pools of 1 and 4 threads and in a second process must agree exactly (Louvain on '
+                'tie-rich graphs, G(n,p)); theorem that the deterministic tie-break (argmax over a sorted candidate list) is independent of '
+                'the iteration order of the candidate map.',
+                note='Partial: the std hasher and process state are runtime behaviour; exercised, not modelled.',
+                technique='Lean 4 proof (order-independent argmax) + repeated-run / fresh-process differential runs', ref='DESIGN.md 5 C17'),
+    'C18': dict(level='Lean checker of an Ok answer (keys, non-negativity, unit norm, next-step bound 2*||I+A^T||_F*n*tol) run on the '
+                'implementation\'s output; Float model of the power iteration compared with the implementation; theorems on the step.',
+                note='Partial: evaluated over Float with slack 1e-9; IEEE rounding not modelled.', technique='Lean 4 proof + spec check + '
+                'differential correspondence', ref='DESIGN.md 5 C18'),
+    'C19': dict(level='Theorem: the event-level reader model is total and never panics (C19_total) and Ok content equals the declared '
+                'nodes/edges; the real reader runs on thousands of corrupted documents under catch_unwind + watchdog and is compared with the '
+                'model on quick-xml\'s own event stream.',
+                note='quick-xml itself (no panic / termination on arbitrary strings) is exercised, not proved.',
+                technique='Lean 4 proof (totality) + fault enumeration + differential correspondence', ref='DESIGN.md 5 C19'),
+    'C20': dict(level='Exhaustive sweep of ~100 public functions over 8 kinds x 12 degenerate shapes x 3 weight modes x all argument values incl. '
+                'an absent name, each call under catch_unwind (overflow checks on); outcome classes compared with the error-channel table '
+                '(specification) and with the models; theorems that the modelled functions never reach a panic site on reachable stores.',
+                note='The pub-fn table is regenerated from the source on every run; functions outside the models are covered by the sweep only.',
+                technique='Lean 4 proof (no-panic of models) + exhaustive small-scope sweep + translator (pub fn table)', ref='DESIGN.md 5 C20'),
 }
